@@ -101,6 +101,14 @@ class HarnessError(Exception):
     """The harness (not the tool) misbehaved; never reported as a property verdict."""
 
 
+def _weight(case):
+    if isinstance(case, dict) and isinstance(case.get("choices"), (list, tuple)):
+        return sum(1 for c in case["choices"] if c)
+    if isinstance(case, dict) and isinstance(case.get("history"), (list, tuple)):
+        return len(case["history"])
+    return 0
+
+
 class Agg:
     """Aggregated outcomes of a set of executions."""
 
@@ -135,13 +143,17 @@ class Agg:
     def viol(self, fp, explain, artefacts=None, case=None):
         self.evaluations += 1
         self.outcomes["VIOLATION:" + fp] += 1
-        # keep only the first violation per fingerprint in this aggregate (enumeration order)
+        case = case if case is not None else self._ctx
+        w = _weight(case)
+        # keep one violation per fingerprint: the one with the fewest deviations, first in enumeration order
         for v in self.violations:
             if v["fp"] == fp:
                 v["count"] += 1
+                if w < v["weight"]:
+                    v.update({"explain": explain, "artefacts": jsonable(artefacts or {}), "case": jsonable(case), "weight": w})
                 return
         self.violations.append({"fp": fp, "explain": explain, "artefacts": jsonable(artefacts or {}),
-                                "case": jsonable(case if case is not None else self._ctx), "count": 1})
+                                "case": jsonable(case), "count": 1, "weight": w})
 
     def note(self, k, n=1):
         self.notes[k] += n
@@ -157,6 +169,10 @@ class Agg:
             for w in self.violations:
                 if w["fp"] == v["fp"]:
                     w["count"] += v["count"]
+                    if v["weight"] < w["weight"]:
+                        c = w["count"]
+                        w.update(v)
+                        w["count"] = c
                     break
             else:
                 self.violations.append(v)
